@@ -596,7 +596,15 @@ def rule_s13(ctx, F):
         if not fn:
             continue
         key = "%s:emptiness-is-start-equals-end" % name.replace("ts_node__", "")
-        ids = fn.ids_named("is_empty")
+        # the emptiness flag, whatever it is called: the bool local that selects between the strict and the non-strict
+        # comparison of the child's end with the range start (`flag ? end < start : end <= start`)
+        fn.defs(0)
+        ids = set()
+        for pt, e in fn.points():
+            for x in walk(e):
+                if x.get("k") == "cond" and strip(x["c"]).get("k") == "ref" and strip(x["c"]).get("dk") == "local":
+                    ids.add(strip(x["c"])["id"])
+        ids = sorted(ids) or fn.ids_named("is_empty")
         ds = [d for i in ids for d in fn.defs(i) if isinstance(d, dict) and d.get("k") not in ("uninit", "param")]
         if not ds:
             conds = [fn.cond(b.id) for b in fn.blocks.values() if fn.cond(b.id) is not None and start_fn in show(fn.cond(b.id)) and "node_end" in show(fn.cond(b.id))]
